@@ -13,7 +13,7 @@ PROOF_AX = ("Coq 8.16.1 kernel incl. vm_compute (no native_compute); axioms per 
             "vector primitives; the vector primitives are model/Vec.v's, tied at cell level by C13); its output for EVERY function that parse_float "
             "executes (mask, extended_float, rounding, num, number, lemire, bellerophon, slow, bigint, parse: 66 definitions) and for the four "
             "shipped front-end copies is PROVED equal to the hand-written model (proofs/SrcEq*.v) and composed into rs_parse_float_correct "
-            "(proofs/SrcFinal.v); the unsafe stack vector stackvec.rs is translated at cell level (raw pointers as accesses to a 62-cell buffer with explicit UB) and proved equal to the hand-written cell-level model (proofs/SrcEqStackVec.v, C13); NOT translated: heapvec.rs (calls std Vec; list-level model + history correspondence), "
+            "(proofs/SrcFinal.v); the unsafe stack vector stackvec.rs is translated at cell level (raw pointers as accesses to a 62-cell buffer with explicit UB) and proved equal to the hand-written cell-level model (proofs/SrcEqStackVec.v, C13); the wrapper functions of heapvec.rs are translated with std::vec::Vec's methods given by model/SrcLibHeap.v and coincide with the heap case of model/Vec.v (proofs/SrcEqHeapVec.v); NOT translated: "
             "libm.rs and the tables (dumped from the compiled crate and executed exhaustively); the correspondence harness (Rust runner vs "
             "extracted OCaml model, ExtrOcamlBasic only) runs the same model against the compiled code - that tie is "
             "differential testing, not proof; rustc/LLVM/hardware IEEE arithmetic modelled, not verified.")
